@@ -11,7 +11,7 @@ instead of matching helper names, variable names, expression text or branch shap
 """
 import itertools
 
-from ..core import (names_of, AnalysisBroken, Inliner, canon, strip, last_member, norm_cond, walk, forward)
+from ..core import (names_of, AnalysisBroken, Inliner, canon, strip, last_member, norm_cond, walk, forward, lvalue_root)
 from ..analyses import (is_call, holding, path_to, describe, callback_kind, atoms_imply)
 from .. import roles
 from . import c06
@@ -95,7 +95,12 @@ def run(ctx):
     ctx.rule('R-C02f', 'poll-array compaction keeps the moved descriptor\'s request: the vacated slot receives the whole last entry '
                        '(or at least its fd and events), the moved descriptor\'s index and back-pointer are updated; an appended entry '
                        'gets the descriptor\'s fd, an event mask, the back-pointer, and the descriptor its index', floor=6)
+    ctx.rule('R-C02g', 'every ready band that has a handler is dispatched: from the moment a descriptor is taken off the active batch until '
+                       'the dispatcher drops it (next descriptor taken / return), for each of the 8x8 combinations of ready bands and '
+                       'installed handlers the handler of every band that is ready and non-NULL is called, given that the callbacks leave '
+                       'the descriptor registered and its handlers set (the only exception the property grants)', floor=3)
     ctx.section(compaction)
+    ctx.section(dispatch)
     ctx.section(notify)
     ctx.section(wanted)
     ctx.section(flush)
@@ -259,6 +264,243 @@ def compaction(ctx):
             raise AnalysisBroken('%s: no path of notify_fd removes an entry from the poll array' % t)
     if not ntab:
         raise AnalysisBroken('no poll method that keeps a pollfd array')
+
+
+# --------------------------------------------------------------------------
+# R-C02g  the dispatcher calls the handler of every ready band that has one
+# --------------------------------------------------------------------------
+
+READY = ('m', FD, 'ready_bands')
+HANDLED = ('m', 'iv_state', 'handled_fd')
+HFIELDS = {(FD, h) for h in HANDLER_FIELDS}
+HTOK = {MASKIN: 1001, MASKOUT: 1002, MASKERR: 1004}      # abstract values of the three (non-NULL) handler pointers
+TOKBAND = {v: k for k, v in HTOK.items()}
+FDTOK = 2000                                              # abstract value of the pointer to the descriptor being dispatched
+ACTIVE_NODE = (FD, 'list_active')
+BANDNAME = {MASKIN: 'input', MASKOUT: 'output', MASKERR: 'error'}
+
+
+def _dispatch_key(m):
+    lm = (m.get('record'), m['field'])
+    if lm == (FD, 'ready_bands'):
+        return READY
+    if lm in HFIELDS:
+        return ('m',) + lm
+    if lm == ('iv_state', 'handled_fd'):
+        return HANDLED
+    return None
+
+
+def _handler_locals(g):
+    """locals into which the value of a descriptor's handler field can flow (a cached / selected handler pointer)"""
+    defs = {}
+    for e in g.events():
+        if e['ev'] == 'store' and 'rhs' in e:
+            r = lvalue_root(e['lhs'])
+            if r is not None and r.get('vk') in ('local', 'param'):
+                defs.setdefault(r['name'], []).append(e['rhs'])
+        elif e['ev'] == 'decl' and isinstance(e.get('init'), dict):
+            defs.setdefault(e['name'], []).append(e['init'])
+    t, changed = set(), True
+    while changed:
+        changed = False
+        for vn, rhss in defs.items():
+            if vn not in t and any(any(y.get('k') == 'member' and last_member(y) in HFIELDS for y in walk(rh))
+                                   or (h02.local_vars_in(rh) & t) for rh in rhss):
+                t.add(vn)
+                changed = True
+    return t
+
+
+def dispatch_sites(g):
+    """indirect calls that run a descriptor's handler: through the handler field itself, or through a local that was
+    given the value of a handler field (cached pointer, pointer selected by a conditional / a selector helper / a table)"""
+    hl = _handler_locals(g)
+    out = []
+    for e in g.events():
+        if e['ev'] != 'call' or 'fnexpr' not in e:
+            continue
+        if last_member(e['fnexpr']) in HFIELDS:
+            out.append(e)
+            continue
+        r = lvalue_root(strip(e['fnexpr']))
+        if r is not None and r.get('vk') in ('local', 'param') and r['name'] in hl and not last_member(e['fnexpr']):
+            out.append(e)
+    return out
+
+
+class DispatchAI(h02.AbsInt):
+    """the descriptor being dispatched: ready_bands and the three handlers are parameters of the run; a callback through one
+    of its handlers is *benign* (leaves the descriptor registered and the handlers as they are): the one case in which the
+    property allows no band to be skipped"""
+    C, E, AFTER, R0, H0 = ('x', 'called'), ('x', 'episode'), ('x', 'after'), ('x', 'r0'), ('x', 'h0')
+
+    def __init__(self, g, sites, is_unlink, is_pick, prog):
+        self.site_ids = {id(e) for e in sites}
+        self.is_unlink, self.is_pick = is_unlink, is_pick
+        self.seen = {}              # band -> locations of the calls that ran its handler
+        self.undecided = None
+        # a pointer to a descriptor is NULL or points to the descriptor being dispatched (a pop helper's result, the marker)
+        fdptrs = {('v', e['name']) for e in g.events() if e['ev'] == 'decl' and e.get('record') == FD and e.get('ptr')
+                  and _tname(e.get('type')) == 'struct iv_fd_ *'} | {HANDLED}
+        h02.AbsInt.__init__(self, g, mem_key=_dispatch_key, on_event=self._hook, prog=prog,
+                            fork=lambda k: (0, FDTOK) if k in fdptrs else None)
+
+    @classmethod
+    def params(cls, s, r, h):
+        s[READY] = r
+        for fld, band in HANDLER_FIELDS.items():
+            s[('m', FD, fld)] = HTOK[band] if h & band else 0
+        return s
+
+    def _hook(self, e, s, ai):
+        if self.is_unlink(e):
+            s = self.params(dict(s), s[self.R0], s[self.H0])
+            s[self.E], s[self.C] = 1, 0
+            s.pop(self.AFTER, None)
+            return s
+        if self.is_pick(e):
+            return self.params(dict(s), s[self.R0], s[self.H0])
+        return None
+
+    def ev(self, e, s):
+        if isinstance(e, dict) and e.get('k') == 'container_of' and e.get('record') == FD:
+            return FDTOK
+        return h02.AbsInt.ev(self, e, s)
+
+    def step(self, e, s):
+        if e['ev'] == 'call' and id(e) in self.site_ids:
+            tok = self.ev(e['fnexpr'], s)
+            if tok in TOKBAND:
+                s = dict(s)
+                s[self.C] = s.get(self.C, 0) | TOKBAND[tok]
+                s[self.AFTER] = '%s handler at %s' % (BANDNAME[TOKBAND[tok]], _short_loc(e['loc']))
+                self.seen.setdefault(TOKBAND[tok], set()).add(e['loc'])
+                return [s]
+            if tok is None and self.undecided is None:
+                self.undecided = e['loc']
+        return h02.AbsInt.step(self, e, s)
+
+
+def _raw_unlink_node(e):
+    """P for a store `P->next->prev = P->prev`: the store that takes node P out of its list when the unlink is written out"""
+    if e['ev'] != 'store' or e.get('op') != '=' or 'rhs' not in e:
+        return None
+    l, r = strip(e['lhs']), strip(e['rhs'])
+    if not (isinstance(l, dict) and l.get('k') == 'member' and l.get('arrow') and last_member(l) == ('iv_list_head', 'prev')):
+        return None
+    b = strip(l['base'])
+    if not (isinstance(b, dict) and b.get('k') == 'member' and last_member(b) == NEXT):
+        return None
+    if not (isinstance(r, dict) and r.get('k') == 'member' and last_member(r) == ('iv_list_head', 'prev')):
+        return None
+    p1 = b['base'] if b.get('arrow') else {'k': 'addr', 'e': b['base']}
+    p2 = r['base'] if r.get('arrow') else {'k': 'addr', 'e': r['base']}
+    return p1 if canon(strip(p1)) == canon(strip(p2)) else None
+
+
+def _short_loc(loc):
+    return ':'.join(str(loc).split('/')[-1].split(':')[:2])
+
+
+def dispatch(ctx):
+    prog = ctx.prog
+    rts = sorted(roles.roots(prog), key=lambda r: r.q)
+    rq = {r.q for r in rts}
+    nroots = 0
+    for r in rts:
+        if not h02.closure_mentions(prog, r, HFIELDS):
+            continue
+        try:
+            g = h02.inlined(prog, r)
+        except AnalysisBroken:
+            continue
+        sites = [e for e in dispatch_sites(g) if not any(c[2] in rq and c[2] != r.q for c in e.get('chain', ()))]
+        if not sites:
+            continue
+        nroots += 1
+        al = h02.addr_aliases(g)
+        # where a descriptor of the batch is picked (list node -> descriptor) and where it is taken off the batch
+        picks = []
+        for e in g.events():
+            picks += [x for x in walk(e) if x.get('k') == 'container_of' and (x.get('record'), x.get('member')) == ACTIVE_NODE]
+        for blk in g.blocks.values():
+            if blk.term and isinstance(blk.term.get('cond'), dict):
+                picks += [x for x in walk(blk.term['cond'])
+                          if x.get('k') == 'container_of' and (x.get('record'), x.get('member')) == ACTIVE_NODE]
+        vdefs = {}
+        for e in g.events():
+            if e['ev'] == 'store' and e.get('op') == '=' and 'rhs' in e:
+                l = strip(e['lhs'])
+                if isinstance(l, dict) and l.get('k') == 'var' and l.get('vk') in ('local', 'param'):
+                    vdefs.setdefault(l['name'], set()).add(canon(strip(e['rhs'])))
+
+        def spellings(x, vdefs=vdefs):
+            # the node pointer as written, the local it was copy-propagated from, and what that local was assigned
+            x = strip(x)
+            out = {canon(x)}
+            if isinstance(x, dict):
+                if x.get('_was'):
+                    out.add(x['_was'])
+                for n in list(out):
+                    out |= vdefs.get(n, set())
+            return out
+        pick_args = set()
+        for x in picks:
+            pick_args |= spellings(x['e'])
+
+        def is_unlink(e, al=al, pick_args=pick_args):
+            if is_call(e, ('iv_list_del', 'iv_list_del_init')) and e.get('args'):
+                return _addr_member(e['args'][0], al) == ACTIVE_NODE or bool(spellings(e['args'][0]) & pick_args)
+            p_ = _raw_unlink_node(e)        # written out in an order the core does not fuse into the helper's call
+            return p_ is not None and (_addr_member(p_, al) == ACTIVE_NODE or bool(spellings(p_) & pick_args))
+
+        def is_pick(e):
+            return e['ev'] == 'store' and 'rhs' in e and any(
+                x.get('k') == 'container_of' and (x.get('record'), x.get('member')) == ACTIVE_NODE for x in walk(e['rhs']))
+
+        unlinks = [e for e in g.events() if is_unlink(e)]
+        if not unlinks:
+            raise AnalysisBroken('%s runs descriptor handlers but no site takes a descriptor off the active batch '
+                                 '(unlink of an iv_fd_.list_active node)' % r.name)
+        ai = DispatchAI(g, sites, is_unlink, is_pick, prog)
+        init = []
+        for r0 in range(8):
+            for h0 in range(8):
+                s = DispatchAI.params({ai.R0: r0, ai.H0: h0, ai.E: 0, ai.C: 0}, r0, h0)
+                init.append(s)
+        ev_in = ai.run(init)
+        if ai.undecided is not None:
+            raise AnalysisBroken('%s: which handler the call at %s runs is not decided by the abstract state' % (r.name, ai.undecided))
+        checkpoints = [(e, ev_in.get((e['_b'], e['_i']), ()), 'the next descriptor is taken off the batch at %s' % _short_loc(e['loc']))
+                       for e in unlinks]
+        checkpoints += [(e, S, 'the dispatcher returns') for (e, S) in ai.root_exits(ev_in)]
+        lost, nstates = {}, 0
+        for (e, S, how) in checkpoints:
+            for fs in S:
+                s = dict(fs)
+                if s.get(ai.E) != 1:
+                    continue
+                nstates += 1
+                need = s[ai.R0] & s[ai.H0]
+                for band in (MASKIN, MASKOUT, MASKERR):
+                    if need & band and not s.get(ai.C, 0) & band:
+                        cex = (s[ai.R0], s[ai.H0], '%s%s' % (('after the ' + s[ai.AFTER] + ' ') if s.get(ai.AFTER) else '', how))
+                        if band not in lost or cex < lost[band]:
+                            lost[band] = cex        # the smallest counterexample: the report does not depend on the iteration order
+        if not nstates:
+            raise AnalysisBroken('%s: no descriptor episode reaches its end in the abstract interpretation' % r.name)
+        for band in (MASKIN, MASKOUT, MASKERR):
+            locs = sorted(ai.seen.get(band, ()))
+            ctx.ob('R-C02g', '%s:dispatch(band=%d)' % (r.name, band), band not in lost, loc=locs[0] if locs else r.loc,
+                   detail='a descriptor taken off the active batch with band %d ready and a non-NULL %s handler has that handler called '
+                          'before the dispatcher drops it, whatever other bands are ready / handlers are set (64 combinations; callbacks '
+                          'that neither unregister the descriptor nor clear the handler)%s'
+                          % (band, BANDNAME[band],
+                             ('; VIOLATED: ready bands %d, handlers set for bands %d: %s without the %s handler having been called'
+                              % (lost[band] + (BANDNAME[band],))) if band in lost else ('' if locs else '; no call runs this handler')), fn=r.q)
+    if not nroots:
+        raise AnalysisBroken('no entry point runs the handlers of a descriptor (indirect call through iv_fd_.handler_*)')
 
 
 # --------------------------------------------------------------------------
